@@ -5463,7 +5463,12 @@ static hawk_nde_t* parse_variable (hawk_t* hawk, const hawk_loc_t* xloc, hawk_nd
 
 #if defined(HAWK_ENABLE_FUN_AS_VALUE)
 	if (!is_fcv) return (hawk_nde_t*)nde;
-	return parse_fncall(hawk, (const hawk_oocs_t*)nde, HAWK_NULL, xloc, FNCALL_FLAG_VAR);
+	{
+		hawk_nde_t* call;
+		call = parse_fncall(hawk, (const hawk_oocs_t*)nde, HAWK_NULL, xloc, FNCALL_FLAG_VAR);
+		if (HAWK_UNLIKELY(!call)) hawk_freemem (hawk, nde); /* the name in it is freed by the caller */
+		return call;
+	}
 #else
 	return (hawk_nde_t*)nde;
 #endif
@@ -5702,7 +5707,10 @@ static hawk_nde_t* parse_primary_ident_noseg (hawk_t* hawk, const hawk_loc_t* xl
 
 			#if defined(HAWK_ENABLE_FUN_AS_VALUE)
 						if (is_fncall_var)
-							nde = parse_fncall(hawk, (const hawk_oocs_t*)nde, HAWK_NULL, xloc, FNCALL_FLAG_VAR);
+						{
+							nde = parse_fncall(hawk, (const hawk_oocs_t*)tmp, HAWK_NULL, xloc, FNCALL_FLAG_VAR);
+							if (HAWK_UNLIKELY(!nde)) hawk_freemem (hawk, tmp); /* the name in it is freed by the caller */
+						}
 			#endif
 					}
 				}
